@@ -40,3 +40,17 @@ prop('C15', technique='contract-based deductive verification: loop refinement of
      assumptions=['DATA text is printable ASCII + TAB (one source line)',
                   'pyparsing hands the text after DATA to DataStmt unchanged'],
      not_covered=['numeric text conversion of READ (int()/float() vs QB numerals) is under C16', 'event sequences longer than 4'])
+prop('C17', technique='contract-based deductive verification: generator lemma (real gen_print_stmt run on real/stub child nodes, '
+                      'children replaced by their contracts) composed with the device code, string VCs in z3',
+     explanation='for every item-kind sequence up to length 3 (all values symbolic) the emitted code run on the real device code prints '
+                 'exactly render(items); format_number by contract',
+     assumptions=['child expression generators push one cell of the item\'s static type (their own contracts, C01/C03)'],
+     not_covered=['item sequences longer than 3 beyond the listed samples (inductive step: second item from an arbitrary buffer)',
+                  'grammar: how PRINT text becomes the item list (pyparsing)'])
+prop('C18', technique='contract-based deductive verification: device protocol contract over symbolic response lines, generator and '
+                      'parse-action contracts (real functions, all prompt/field texts symbolic)',
+     explanation='_exec_input proved against the acceptance/re-prompt specification for enumerated variable lists with arbitrary '
+                 'field texts; gen_input and parse_input proved to produce the argument protocol the device consumes',
+     assumptions=['int(str)/float(str) acceptance and value are uninterpreted functions of the text (CPython, assumed)',
+                  'lemma: sep.join(fields).split(sep) == fields for separator-free fields'],
+     not_covered=['QBASIC vs Python numeral syntax (C16)', 'more than one rejected line (same loop body)', 'lvalue stores (C01/C04)'])
